@@ -58,7 +58,7 @@ KNOWN_FD = 'frozendict-unmeasured'
 
 
 def generate():
-    return pyfacts.run(['Sizes', 'LimitFacts'])
+    return pyfacts.run(['Sizes', 'LimitFacts', 'EvalSizes'])
 
 
 # =============================================================================== worker side
@@ -938,6 +938,11 @@ def run(env, res):
     if env['replay']:
         rp = json.load(open(env['replay']))
         c = rp['case']
+        if c.get('part') == 'V':
+            from props import c08eval
+            c08eval.replay(env, res, c)
+            res.extra['histogram'] = hist
+            return res
         if c.get('op') in ('sweep', 'expr'):
             out = run_pool([c], 1)[0]
             res.case(common.digest(c), True, sample=c)
@@ -951,6 +956,11 @@ def run(env, res):
             (run_shapes if c.get('part') == 'R' else run_limit_direct)(env, res, rng, hist)
         res.extra['histogram'] = hist
         return res
+
+    # ---- V: whole programs under both limits against the instrumented evaluator model (own pool, runs meanwhile)
+    from props import c08eval
+    vhandle = c08eval.start(env)
+    vhist = {}
 
     # ---- S + E + Q in the worker pool
     targets, nfuncs = sweep_targets()
@@ -1040,10 +1050,12 @@ def run(env, res):
     # ---- L + R in process (finite data)
     run_limit_direct(env, res, rng, lhist)
     run_shapes(env, res, rng, rhist)
+    c08eval.finish(vhandle, env, res, vhist)
 
     known = {k['key'] for k in common.known_findings() if k['property'] == ID and k.get('status') == 'known'}
     res.failures.sort(key=lambda f: f.key in known)
-    res.extra['histogram'] = dict(sweep_and_expressions=hist, quota=qhist, shapes=rhist, limit_iterable=lhist)
+    res.extra['histogram'] = dict(sweep_and_expressions=hist, quota=qhist, shapes=rhist, limit_iterable=lhist,
+                                  evaluator=vhist)
     res.extra['registered_functions'] = nfuncs
     res.extra['sweep_positions'] = len(positions)
     res.extra['sweep_cases'] = len(cases)
